@@ -16,7 +16,9 @@
 package main
 
 import (
+	"encoding/json"
 	"fmt"
+	"os"
 	"sort"
 	"strings"
 	"sync/atomic"
@@ -265,6 +267,9 @@ func parallel(r *common.Run, n int, fn func(i int, s *shard)) {
 		fn(i, s)
 	})
 	for _, s := range shards {
+		if s == nil {
+			continue // item belongs to another process shard
+		}
 		r.Eval(s.ev)
 		r.Nontrivial(s.nt)
 		for _, sig := range s.order {
@@ -813,15 +818,32 @@ func main() {
 	r := common.Start("C18", "model_checking")
 	knapItems, dpItems, graphN, allPerms := 4, 6, 5, 5
 	if r.Thorough() {
-		knapItems, dpItems, graphN, allPerms = 5, 8, 6, 6
+		knapItems, dpItems, graphN, allPerms = 5, 7, 6, 6
+		mapDeviations, mapAllPermsMax = 2, 4
 	}
-	graphSpace(r, graphN, allPerms)
-	dpSpace(r, dpItems)
-	knapsackSpace(r, knapItems)
+	// the map-order environment is process-global: the enumeration runs in single-threaded shards
+	if !r.Sharded(16) {
+		graphSpace(r, graphN, allPerms)
+		dpSpace(r, dpItems)
+		knapsackSpace(r, knapItems)
+		r.Cov("map_order_executions_sum", atomic.LoadInt64(&mapExecutions))
+		r.Cov("map_order_nondefault_scripts_sum", atomic.LoadInt64(&mapScripts))
+		r.Cov("map_order_range_loops_in_default_runs_sum", atomic.LoadInt64(&mapLoops))
+		if atomic.LoadInt64(&mapLoops) == 0 && r.ShardIdx == 0 {
+			common.Infra("no range-over-map loop was intercepted: the instrumentation overlay is not in effect")
+		}
+	}
 	r.Assume(
 		"small-scope: Knapsack item lists of <= 4 (thorough 5) items, weights 0..3, values 1..3; FindDpSolvers value lists of <= 6 (thorough 8) values 1..3; graphs on <= 5 (thorough 6) vertices",
-		"map-iteration order inside golib (FindDpSolvers, Best, BestAllowMinOverflow, GetMaximalCliques) is the Go runtime's randomized order, one execution per case: the oracles hold for every order, so this can miss an order-specific defect but cannot raise a false alarm; BronKerbosch with X=P[:0] and every permutation of P covers every vertex order GetMaximalCliques can produce",
+		"map-iteration order inside golib (FindDpSolvers, Best, BestAllowMinOverflow, GetMaximalCliques) is an enumerated environment answer: algz/dp.go and algz/graph.go are rebuilt from the working tree with every range-over-map redirected to vshim/vmap; default = ascending keys, deviation = another permutation (all permutations for small maps, else reverse + rotations); every script with <= 1 (thorough 2) deviations is executed for every case; BronKerbosch with X=P[:0] and every permutation of P covers every vertex order GetMaximalCliques can produce",
 		"tie-breakers are pure functions of the two lengths (they neither keep nor modify the slices)",
 		"not demanded (property is silent): what BestAllowMinOverflow returns when neither the exact total nor an overshoot entry exists; whether the empty graph yields no clique or one empty clique; extra overshoot entries above the least one")
-	r.Finish("every case of each family is executed once (no sampling, no repetition); non-trivial = Knapsack cases whose optimum takes some but not all of the value (0 < optimum < sum of values); FindDpSolvers cases with >= 2 items and maxValue < sum of values (some selection overshoots); graph cases with >= 1 edge and >= 2 maximal cliques")
+	r.Cov("map_order_deviation_bound", mapDeviations)
+	if inst, err := os.ReadFile(os.Getenv("VERIF_WORK") + "/instrumented.json"); err == nil {
+		var v any
+		if json.Unmarshal(inst, &v) == nil {
+			r.Cov("instrumented_files", v)
+		}
+	}
+	r.Finish("every case of each family is executed once per map-order script (no sampling, no repetition); non-trivial = Knapsack cases whose optimum takes some but not all of the value (0 < optimum < sum of values); FindDpSolvers cases with >= 2 items and maxValue < sum of values (some selection overshoots); graph cases with >= 1 edge and >= 2 maximal cliques")
 }
